@@ -54,6 +54,11 @@ func (f *Ash) Call(s *slip.Scope, args slip.List, depth int) (result slip.Object
 	if slip.ArrayMaxDimension < sh {
 		slip.ErrorPanic(s, depth, "shift of %d is too large", sh)
 	}
+	if sh < -slip.ArrayMaxDimension {
+		// Every bit is shifted out with less already and the most negative
+		// fixnum can not be negated.
+		sh = -slip.ArrayMaxDimension
+	}
 	switch ti := args[0].(type) {
 	case slip.Fixnum:
 		switch {
